@@ -1,7 +1,7 @@
 """C11 — no request can crash the server.  PARTIAL: theorems start at decoded blocks."""
 import json, os
 import vlib
-from props import _batches
+from props import _batches, _bytes
 
 
 def check(run):
@@ -39,6 +39,10 @@ def check(run):
         "empty nonce; ...), random pairs of alterations, nested and mutually attesting session structures with non-key issuers, a "
         "validly signed token with the undefined issuer; receipt classes of EVERY invocation compared with the model; plus raw "
         "mutations (truncate, flip, random, overwrite, duplicate chunk) of a valid CAR body through Server.Request (crash observation only)")
+    # byte-level model of request.Decode on the raw stream: 400 exactly when the body is undecodable
+    bstats = _bytes.evaluate(run, os.path.join(run.wd, "cases"), "bytes_C11", "raw request bodies: request.Decode, and the status Server.Request answered in the child process")
+    if bstats:
+        run.cov["bytes_model"] = bstats
     run.cov["raw_requests"] = stats.get("raw_requests")
     run.cov["raw_request_outcomes"] = stats.get("raw_request_outcomes")
     run.cov["items"] = stats.get("items")
@@ -50,4 +54,7 @@ def check(run):
 
 
 def replay(path):
+    doc = json.load(open(path))
+    if str(doc.get("key", "")).startswith("bytes-model:") and (doc.get("replay") or {}).get("body_hex") is not None:
+        return _bytes.replay(doc)
     return _batches.replay("C11", path)
